@@ -165,11 +165,12 @@ def _scan_harnesses():
                     unit = u
                     break
             info = {'units': [unit] if unit else [], 'kani': False,
-                    'props': {'debug': ['C17'], 'drop': ['C17'], 'clone': ['C16', 'C01'], 'indep': ['C16']}.get(kind, []),
+                    'props': {'debug': ['C17'], 'drop': ['C17'], 'clone': ['C16', 'C01'], 'indep': ['C16'], 'resume': ['C09', 'C14', 'C01']}.get(kind, []),
                     'bounds': {'debug': 'Debug text of two instances with different key / IV / history / position is equal (native random search, toy invertible cipher)',
                                'drop': 'feature zeroize: after drop no 8-byte window of the exported state is left in the object storage (native, 16-byte toy cipher)',
                                'clone': 'clone after a random history; original and clone interleaved equal two fresh replays, incl. positions and seeks (native)',
-                               'indep': 'instances over different block sizes used in one process do not influence each other (native)'}.get(kind, n)}
+                               'indep': 'instances over different block sizes used in one process do not influence each other (native)',
+                               'resume': 'export at a random cut (block / byte), import into a fresh instance, continue == uninterrupted run; encryptor and decryptor states equal; public chaining value (native, toy invertible cipher)'}.get(kind, n)}
         out[n] = info
     out.update(HARNESS_OVERRIDES)
     return out
